@@ -394,7 +394,7 @@ def _run(ctx: Ctx, pool):
                          java_opts=jopts, **kw)
 
     f_obs = tl("ObsGroup", _cfg("ObsGroup", ctx), "obs")
-    f_sim = tl("ObsGroup", _cfg("ObsGroup_sim", ctx), "obs_sim", workers=1, simulate=f"num={40 if q else 1500}", depth=10,
+    f_sim = tl("ObsGroup", _cfg("ObsGroup_sim", ctx), "obs_sim", workers=1, simulate=f"num={40 if q else 1000}", depth=10,
                seed=ctx.seed + 1)
     f_res = tl("Angles", _cfg("Angles_res", ctx), "res", coverage=not q)
     f_mean = tl("Angles", _cfg("Angles_mean", ctx), "mean", coverage=not q)
